@@ -252,7 +252,7 @@ def judge_iterm2(col, case, t, ref, alpha, termbg, w, h, cell, render_px, method
     for e in t.errors:
         bad("size-key" if "size=" in e else "decoder", f"terminal model: {e}")
     imgs = t.iterm_images
-    animated = case["src"][0] == "gif" and case["src"][3] > 1
+    animated = cc.is_animated_src(case["src"])
     native = method == "anim" and animated
     lines = method == "lines"
     exp_n = h if lines else 1
@@ -274,11 +274,11 @@ def judge_iterm2(col, case, t, ref, alpha, termbg, w, h, cell, render_px, method
         return
     kind = case.get("kind", "pil")
     path = None
-    if kind in ("file", "pilfile") or (kind == "pil" and case["src"][0] == "gif"):
-        path = cc.source_path(case["src"], case.get("fmt", "gif" if case["src"][0] == "gif" else "png"))
+    if kind in ("file", "pilfile") or (kind == "pil" and case["src"][0] in cc.ANIMATED_KINDS):
+        path = cc.source_path(case["src"], case.get("fmt", cc.default_fmt(case["src"])))
     filebytes = None
     if path or kind == "pilmem":
-        with open(path or cc.source_path(case["src"], case.get("fmt", "gif")), "rb") as f:
+        with open(path or cc.source_path(case["src"], case.get("fmt", cc.default_fmt(case["src"]))), "rb") as f:
             filebytes = f.read()
     raw0 = imgs[0]["raw"]
     if native:
@@ -322,6 +322,9 @@ def judge_iterm2(col, case, t, ref, alpha, termbg, w, h, cell, render_px, method
         col.inc("read_from_file")
         return
     # ---- re-encoded
+    if any(im.get("n_frames", 1) != 1 for im in imgs):
+        bad("still-is-one-frame", f"a still render transmits a payload of {[im.get('n_frames') for im in imgs]} frames")
+        return
     sizes = {im["size"] for im in imgs}
     if len(sizes) != 1:
         bad("strip-size", f"strips of different sizes {sorted(sizes)}")
@@ -417,6 +420,14 @@ def build_cases(tier):
         dict(src=["mode", 5, 4, "P+t"], kind="file", fmt="png"),
         dict(src=GIFS[0], kind="file", fmt="gif"), dict(src=GIFS[1], kind="file", fmt="gif"),
         dict(src=GIFS[1], kind="pilfile", fmt="gif"), dict(src=GIFS[1], kind="pilmem", fmt="gif")]
+    # animated PNG (RGB / RGBA pass the mode part of the read-from-file gate, GIF never does): a still render
+    # of frame k must transmit frame k, never the animated file
+    for mode in ("RGB", "RGBA"):
+        for k in range(3):
+            srcs.append(dict(src=["apng", 5, 4, 3, k, mode], kind="file", fmt="png"))
+        srcs.append(dict(src=["apng", 5, 4, 3, 1, mode], kind="pilfile", fmt="png"))
+        if not quick:
+            srcs.append(dict(src=["apng", 5, 4, 3, 2, mode], kind="pilmem", fmt="png"))
     for g in srcs:
         add(dict(c, **g) for c in _prod(style=["iterm2"], identity=iid, method=["lines", "whole", "anim"],
                                         cell=[[2, 3], [8, 16]] if quick else cells[:3] + [None], size=few,
